@@ -13,7 +13,9 @@ import (
 	"pgregory.net/rapid"
 
 	"verif/ev"
+	"verif/gdsl"
 	"verif/pgen"
+	"verif/sdsl"
 	"verif/world"
 )
 
@@ -118,6 +120,9 @@ func genC01(t *rapid.T) c01Case {
 	if len(c.Prog.Maps()) == 0 {
 		c.Prog = pgen.Gen(t, pgen.Opts{MinMods: 2, MaxMods: 7, InitialBlocks: inits, ForceStoreOutput: true})
 	}
+	if rapid.IntRange(0, 11).Draw(t, "fedbycache") == 0 {
+		return genC01FedByCache(t, c, inits)
+	}
 	n := rapid.SampledFrom([]int{1, 1, 2, 2, 3}).Draw(t, "nruns")
 	last := genRun(t, c.Prog, c.Seg, c.Head)
 	for i := 0; i < n-1; i++ {
@@ -173,6 +178,45 @@ func genC01(t *rapid.T) c01Case {
 		}
 		c.Runs[i].Faults = genWriteFaults(t)
 	}
+	return c
+}
+
+// genC01FedByCache: a mapper R reads a sparse mapper M and a store S (in get mode, so nothing of S is an input by
+// value); an earlier production request caches M's outputs, then R is requested: the jobs of R's stage find every
+// value input in the cache and run without the block source, on the blocks the cached files name.
+func genC01FedByCache(t *rapid.T, c c01Case, inits []uint64) c01Case {
+	k := sdsl.AllKinds()[rapid.IntRange(0, len(sdsl.AllKinds())-1).Draw(t, "fedkind")]
+	im, is := rapid.SampledFrom(inits).Draw(t, "fedinitm"), rapid.SampledFrom(inits).Draw(t, "fedinits")
+	ir := max(im, is) + rapid.SampledFrom([]uint64{0, 0, 1}).Draw(t, "fedabove")
+	g := gdsl.Graph{Mods: []gdsl.Mod{
+		{Name: "map_m", Kind: "map", Initial: im, Inputs: []gdsl.In{{T: "source", Ref: gdsl.BlockType}}},
+		{Name: "store_s", Kind: "store", Policy: k.Policy, VType: k.VType, Initial: is, Inputs: []gdsl.In{{T: "source", Ref: rapid.SampledFrom([]string{gdsl.BlockType, gdsl.ClockType}).Draw(t, "fedsrc")}}},
+		{Name: "map_r", Kind: "map", Initial: ir, Inputs: []gdsl.In{{T: "map", Ref: "map_m"}, {T: "store", Ref: "store_s", Mode: "get"}}},
+	}}
+	for i := range g.Mods {
+		g.Mods[i].Entry = g.Mods[i].Name
+	}
+	c.Prog = pgen.GenBehaviours(t, g)
+	b := c.Prog.Beh["map_m"]
+	b.Sparse = rapid.SampledFrom([]uint64{2, 3}).Draw(t, "fedsparse") // silent on some blocks
+	c.Prog.Beh["map_m"] = b
+	last := genRun(t, c.Prog, c.Seg, c.Head)
+	last.Output, last.Prod = "map_r", true
+	if last.Start < ir {
+		last.Start = ir
+	}
+	if last.Stop != 0 && last.Stop <= last.Start {
+		last.Stop = last.Start + 1
+	}
+	if last.Final == 0 || last.Final > c.Head {
+		last.Final = c.Head - 1
+	}
+	hist := last
+	hist.Output, hist.JobOrder, hist.TailLag, hist.FinalOnly = "map_m", nil, 0, false
+	if rapid.Bool().Draw(t, "fedlower") && hist.Start >= c.Seg && hist.Start-c.Seg >= im {
+		hist.Start -= c.Seg
+	}
+	c.Runs = []runSpec{hist, last}
 	return c
 }
 
@@ -247,7 +291,7 @@ func TestC01FSBReplay(t *testing.T) {
 
 func runC01(t *testing.T, name, prefix string) {
 	r := ev.Get("C01", name)
-	r.Rule = prefix + "rapid: generated program (2..7+ modules: maps incl. sparse/skip-empty, stores of every kind read in get and deltas mode, block indexes with filtered modules, clock-only and params-only modules, initial blocks straddling segment boundaries) x 1..3 requests run in order on one cache directory (mode, output module, start, stop or unbounded, segment size 2..7, 1..4 workers, final block unknown/below/inside/above, steered job completion order; in one case in eight the object store fails the first write of up to two cache files of one request transiently, which the code retries); each run compared with the single sequential execution L (dev mode, empty cache, one huge segment): strictly increasing, every delivered block equal to L's (id, payload), omissions only below the hand-off in production mode with empty payload, final stores typed-equal; non-trivial = the run scheduled >=2 segment jobs or served >=1 block from cached outputs, and the output depends on a store"
+	r.Rule = prefix + "rapid: generated program (2..7+ modules: maps incl. sparse/skip-empty, stores of every kind read in get and deltas mode, block indexes with filtered modules, clock-only and params-only modules, initial blocks straddling segment boundaries) x 1..3 requests run in order on one cache directory (mode, output module, start, stop or unbounded, segment size 2..7, 1..4 workers, final block unknown/below/inside/above, steered job completion order; one case in twelve: a mapper fed by a sparse mapper whose outputs an earlier request cached and by a store in get mode; in one case in eight the object store fails the first write of up to two cache files of one request transiently, which the code retries); each run compared with the single sequential execution L (dev mode, empty cache, one huge segment): strictly increasing, every delivered block equal to L's (id, payload), omissions only below the hand-off in production mode with empty payload, final stores typed-equal; non-trivial = the run scheduled >=2 segment jobs or served >=1 block from cached outputs, and the output depends on a store"
 	rapid.Check(t, func(rt *rapid.T) {
 		c := genC01(rt)
 		r.Begin(c)
